@@ -23,3 +23,21 @@ pub(crate) use read_bracket::read_bracket;
 pub(crate) use read_symbol::read_symbol;
 pub(crate) use read_charge::read_charge;
 pub(crate) use read_configuration::read_configuration;
+
+// Verification hooks: re-export the token productions so that an external
+// harness can run them directly. Compiled only with `--cfg purr_verif`.
+#[cfg(purr_verif)]
+pub mod verif {
+    pub use super::scanner::Scanner;
+    pub use super::read_symbol::read_symbol;
+    pub use super::read_organic::read_organic;
+    pub use super::read_configuration::read_configuration;
+    pub use super::read_charge::read_charge;
+    pub use super::read_bond::read_bond;
+    pub use super::read_rnum::read_rnum;
+    pub use super::read_bracket::read_bracket;
+    pub use super::read_bracket::{
+        verif_read_hcount, verif_read_isotope, verif_read_map
+    };
+    pub use super::read::verif_read_atom;
+}
